@@ -20,7 +20,7 @@ class Harness:
         except Exception:
             self.p.kill()
 
-FP_RE = re.compile(r"E(\d+) T(-?\d+) M\[([^\]]*)\] A\[([^\]]*)\] N(\S*) D(\S*) I(\d+) R\[([^\]]*)\] S(\w) PA\[([^\]]*)\] PR\[([^\]]*)\] L(\S+) X\[([^\]]*)\] K\[([^\]]*)\] Z(\d+)(!sync)?")
+FP_RE = re.compile(r"E(\d+) T(-?\d+) M\[([^\]]*)\] A\[([^\]]*)\] N(\S*) D(\S*) I(\d+) R\[([^\]]*)\] S(\w) PA\[([^\]]*)\] PR\[([^\]]*)\] L(\S+) X\[([^\]]*)\] K\[([^\]]*)\] Z(\d+)(!sync)?(?: Q(\d+))?")
 
 def parse_fp(fp):
     m = FP_RE.match(fp)
@@ -36,14 +36,15 @@ def parse_fp(fp):
         recs[int(f[0])] = (f[1], f[2])
     return {"epoch": int(m.group(1)), "token": int(m.group(2)), "members": m.group(3), "admins": m.group(4), "name": m.group(5),
             "desc": m.group(6), "nid": m.group(7), "relays": m.group(8), "state": m.group(9), "pa": m.group(10), "pr": m.group(11),
-            "last": m.group(12), "msgs": msgs, "recs": recs, "snaps": int(m.group(15)), "sync": m.group(16) is None, "raw": fp}
+            "last": m.group(12), "msgs": msgs, "recs": recs, "snaps": int(m.group(15)), "sync": m.group(16) is None,
+            "queued": int(m.group(17)) if m.group(17) is not None else None, "raw": fp}
 
 def proj(f):
     """the projection C06/C07 speak about: epoch, MLS state, members, group data, pending proposals, stored messages"""
     if f is None:
         return None
     return (f["epoch"], f["token"], f["members"], f["admins"], f["name"], f["desc"], f["nid"], f["relays"], f["state"], f["pa"], f["pr"],
-            tuple((m["id"], m["author"], m["state"], m["tok"]) for m in f["msgs"]))
+            tuple((m["id"], m["author"], m["state"], m["tok"]) for m in f["msgs"]), f.get("queued"))
 
 class World:
     """one history; `trace` = [(cmd, result, fp)] is self-contained and replayable"""
@@ -126,7 +127,7 @@ def is_refusal(res):
 
 # ---- generators ------------------------------------------------------------------------------
 
-def gen_race_history(w, rng, tier, regime=None, restarts=True, ties=True, p_rewrap=0.25, p_leave=0.0, p_adv=0.25, p_hole=0.3):
+def gen_race_history(w, rng, tier, regime=None, restarts=True, ties=True, p_rewrap=0.25, p_leave=0.0, p_adv=0.25, p_hole=0.3, p_upd=0.2):
     """setup, then rounds of concurrent actions on one epoch, per-client shuffled delivery with
     duplication, then quiescence rounds"""
     n = rng.choice([2, 3, 3, 4, 5] if tier == "quick" else [2, 3, 4, 5, 6])
@@ -206,6 +207,13 @@ def gen_race_history(w, rng, tier, regime=None, restarts=True, ties=True, p_rewr
             e = w.publish(f"advremove {a} {victim} {base + rng.choice([-9, -4, 0, 3, 8])}", "commit", a)
             if e is not None:
                 w.events[e]["adv"] = True
+                new.append(e)
+        # a member sends a stand-alone MLS Update PROPOSAL built with the MLS library (mdk ignores those)
+        if rng.random() < p_upd:
+            a = rng.choice(alive)
+            e = w.publish(f"advupdate {a} {base + rng.choice([-6, 0, 2, 7])}", "proposal", a)
+            if e is not None:
+                w.events[e]["unmodelled"] = True
                 new.append(e)
         ts = base + 5
         # messages after (from clients on their own — possibly pending — state)
@@ -492,6 +500,7 @@ def model_input(w):
     n = w.meta["n"]
     pers = ",".join(str(i) for i, b in enumerate(w.meta["backends"]) if b == "sql") or "-"
     admins = ",".join(map(str, w.meta["admins"]))
+    unmodelled = {k for k, e in w.events.items() if e.get("unmodelled")}
     for i, (cmd, res, fp) in enumerate(w.trace):
         t = cmd.split()
         ev = re.search(r"ev=(\d+) idnum=(\d+) ts=(-?\d+)(?: mid=(\d+))?", res)
@@ -515,6 +524,10 @@ def model_input(w):
                 out.append((i, f"advremove {t[1]} {t[2]} {ev.group(1)} {ev.group(3)} {ev.group(2)}"))
         elif t[0] in ("merge", "clear", "restart", "fp"):
             out.append((i, f"{t[0]} {t[1]}"))
+        elif t[0] == "advupdate":
+            continue        # stand-alone Update proposals are outside the model: inert on the current tree (oracle: refused-with-effect on Q)
+        elif t[0] == "deliver" and int(t[2]) in unmodelled:
+            continue
         elif t[0] == "deliver":
             out.append((i, f"deliver {t[1]} {t[2]}" + (f" {ev.group(1)} {ev.group(2)} {ev.group(3)}" if ev else "")))
         elif t[0] == "rewrap":
@@ -532,7 +545,7 @@ def norm_res(res, impl):
         return "err:" + (ERR_KINDS.get(k, "9") if impl else k)
     return r
 
-def fp_view(fp):
+def fp_view(fp, skip_recs=()):
     f = parse_fp(fp) if "D" in fp and " I" in fp else None
     if f is None:
         m = re.match(r"E(\d+) T(-?\d+) M\[([^\]]*)\] A\[([^\]]*)\] N(\S*) S(\w) PR\[([^\]]*)\] L(\S+) X\[([^\]]*)\] K\[([^\]]*)\] Z(\d+)", fp)
@@ -540,7 +553,7 @@ def fp_view(fp):
             return fp
         return (m.group(1), m.group(2), m.group(3), m.group(4), m.group(5), m.group(6), m.group(7), m.group(8), m.group(9), m.group(10), m.group(11))
     msgs = ",".join(f"{m['id']}:{m['author']}:{m['state']}:{m['epoch']}:{m['wrapper']}:{m['tok']}" for m in f["msgs"])
-    recs = ",".join(f"{n}:{s}:{e}" for n, (s, e) in sorted(f["recs"].items()))
+    recs = ",".join(f"{n}:{s}:{e}" for n, (s, e) in sorted(f["recs"].items()) if n not in skip_recs)
     return (str(f["epoch"]), str(f["token"]), f["members"], f["admins"], f["name"], f["state"], f["pr"], f["last"], msgs, recs, str(f["snaps"]))
 
 FIELD_NAMES = ("epoch", "token", "members", "admins", "name", "state", "pending_removes", "last_message", "messages", "records", "snapshots")
@@ -572,7 +585,7 @@ def correspondence(worlds):
             if a != b and not (a.startswith("err:9") and b.startswith("err:")):
                 diff = f"result impl={res.split()[0]} model={mres}"
             else:
-                va, vb = fp_view(fp), fp_view(mfp)
+                va, vb = fp_view(fp, {k for k, e in w.events.items() if e.get("unmodelled")}), fp_view(mfp)
                 if isinstance(va, tuple) and isinstance(vb, tuple):
                     for name, x, y in zip(FIELD_NAMES, va, vb):
                         if x != y:
@@ -679,9 +692,13 @@ def replay_world(path, wid=None):
                 backends.append(t[2]); retention = int(t[3])
             if t[0] == "create":
                 admins = [int(x) for x in t[2].split(",") if x not in ("", "-")]
-            if t[0] in ("send", "selfupdate", "data", "leave", "advremove", "remove"):
-                kind = "app" if t[0] == "send" else ("proposal" if t[0] == "leave" else "commit")
-                w.publish(c, kind, int(t[1]))
+            if t[0] in ("send", "selfupdate", "data", "leave", "advremove", "remove", "advupdate"):
+                kind = "app" if t[0] == "send" else ("proposal" if t[0] in ("leave", "advupdate") else "commit")
+                e = w.publish(c, kind, int(t[1]))
+                if e is not None and t[0] == "advupdate":
+                    w.events[e]["unmodelled"] = True
+                if e is not None and t[0] == "advremove":
+                    w.events[e]["adv"] = True
             elif t[0] == "rewrap":
                 r, _ = w.do(c)
                 m = re.match(r"ev=(\d+) idnum=(\d+) ts=(-?\d+)", r)
